@@ -25,6 +25,7 @@ RULE = (
     "(>=2 distinct extents or k>=1); distinct by (entry, D, shape, k, p, n_lead)."
 )
 RULE += " Narrow containers (uint8/uint16/int16/bool/float16/bfloat16 with small values) are compared by value with the defining formula. Also: realistic sizes (64x64, 80x60, 16^3, ...), one reusable group-element buffer overwritten in place, int32 / NumPy / float64-under-x64 operands."
+RULE += " High tensor orders: k=4..9 (d=2), k=4..7 (d=3) on small boxes through the array, GeometricImage and MultiImage entry points."
 ASSUMPTIONS = [
     "reference action vmon/ref/action.py (self-tested: identity, composition, inverse, brute-force loops)",
     "float32 arithmetic on small integers is exact",
@@ -92,6 +93,13 @@ def cases(tier, seed):
             sig = [t for t in sig if t[0] <= 2]
         torus = [bool(v) for v in rng.integers(0, 2, size=D)]
         out.append({"kind": "multi", "D": D, "shape": list(shape), "lead": list(lead), "sig": [list(t) for t in sig], "torus": torus})
+    # high tensor orders (products of a few low-order leaves reach them; index-letter bookkeeping of the einsum strings only
+    # shows there): every order the library's subscript alphabet admits on small boxes, both entry points
+    for D, shape, ks in ((2, (2, 3), (4, 5, 6, 7, 8, 9)), (3, (1, 2, 3), (4, 5, 6, 7)), (3, (2, 2, 2), (6,))):
+        for k in ks:
+            out.append({"kind": "single", "D": D, "shape": list(shape), "k": k, "p": k % 2, "high": True})
+    out.append({"kind": "multi", "D": 2, "shape": [3, 2], "lead": [2], "sig": [[6, 1], [1, 0], [7, 0]], "torus": [True, False]})
+    out.append({"kind": "multi", "D": 3, "shape": [2, 1, 2], "lead": [], "sig": [[6, 0], [0, 1]], "torus": [False, True, False]})
     if tier == "thorough":
         out.insert(0, {"kind": "suite"})
     return out
@@ -188,7 +196,7 @@ def run_single(case, ctx):
         # composition / inverse on the recorded results, using the real function for the second step
         index = {rgroup.key(g): i for i, g in enumerate(G)}
         pair_list = pairs_for(ctx["tier"], D, G, rng)
-        if case.get("large"):
+        if case.get("large") or case.get("high"):
             pair_list = [pair_list[int(j)] for j in rng.choice(len(pair_list), size=min(24, len(pair_list)), replace=False)]
         for a, b in pair_list:
             g, h = G[a], G[b]
@@ -225,7 +233,7 @@ def run_single(case, ctx):
         viols += _mon.take()
     # other representations of the same image: int32 data, a NumPy array handed over as it is, float64 data in x64 mode
     # whose values do not fit float32 - a signed permutation of the values must come back exactly, in the same dtype
-    if not viols and not case.get("large"):
+    if not viols and not case.get("large") and not case.get("high"):
         import jax
 
         # narrow containers (masks / raw sensor data / half precision): small values, so that the exact result is representable
